@@ -99,27 +99,22 @@ from vgi_rpc.utils import IpcValidation, ValidatedReader, new_ipc_stream
 # ---------------------------------------------------------------------------
 
 
-_ACCESS_LOG_ERROR_MESSAGE_LIMIT = 500
-"""Cap for ``error_message`` fields surfaced via the access log.
-
-Long exception messages (typically with embedded tracebacks or repeated
-context) bloat each JSONL record without adding signal — the full traceback
-is logged separately by ``_log_method_error``.  The cap matches the
-historical inline truncation used at every dispatch site.
-"""
-
-
-def _truncate_error_message(exc: BaseException | None, limit: int = _ACCESS_LOG_ERROR_MESSAGE_LIMIT) -> str:
+def _truncate_error_message(exc: BaseException | None) -> str:
     """Render an exception's message for the access-log ``error_message`` field.
 
-    Returns ``""`` for ``None`` (the no-error case).  Otherwise returns
-    ``str(exc)`` truncated to ``limit`` characters.  Centralises the
-    historically duplicated ``str(exc)[:500]`` pattern across the unary
-    and stream dispatch shells so the truncation policy is one knob.
+    Returns ``""`` for ``None`` (the no-error case).  Otherwise returns the
+    full ``str(exc)``: ``docs/access-log-spec.md`` §4.1 forbids a length cap on
+    ``error_message`` (the formatter sheds *other* fields when a record grows
+    too large), and the published schema requires the field to be non-empty
+    whenever ``status == "error"`` -- so an exception whose text is empty
+    (``raise ValueError()``) is reported by its class name.
+
+    The name is historical: every dispatch shell used to inline
+    ``str(exc)[:500]``.
     """
     if exc is None:
         return ""
-    return str(exc)[:limit]
+    return str(exc) or type(exc).__name__
 
 
 def _log_method_error(protocol_name: str, method_name: str, server_id: str, exc: BaseException) -> str:
@@ -1093,7 +1088,7 @@ class RpcServer:
                     _hook_exc = exc
                     status = "error"
                     error_type = _log_method_error(protocol_name, info.name, self._server_id, exc)
-                    error_message = str(exc)
+                    error_message = _truncate_error_message(exc)
                     _write_error_batch(writer, schema, exc, server_id=self._server_id)
                     return
                 _write_result_batch(writer, info.result_schema, result, self._external_config, shm=shm)
@@ -1162,7 +1157,7 @@ class RpcServer:
             _hook_exc = exc
             status = "error"
             error_type = _log_method_error(protocol_name, info.name, self._server_id, exc)
-            error_message = str(exc)
+            error_message = _truncate_error_message(exc)
             with contextlib.suppress(BrokenPipeError, OSError):
                 _write_error_stream(transport.writer, _EMPTY_SCHEMA, exc, server_id=self._server_id)
             self._discard_refused_stream_input(transport, info)
@@ -1286,7 +1281,7 @@ class RpcServer:
                     _hook_exc = exc
                     status = "error"
                     error_type = _log_method_error(protocol_name, info.name, self._server_id, exc)
-                    error_message = str(exc)
+                    error_message = _truncate_error_message(exc)
                     with contextlib.suppress(BrokenPipeError, OSError):
                         _write_error_batch(output_writer, output_schema, exc, server_id=self._server_id)
                 finally:
